@@ -749,19 +749,9 @@ impl Service {
                 let peer_key: kbucket::Key<NodeId> = node_id.into();
 
                 // The distances we send are sanitized an ordered.
-                // We never send an ENR request in combination of other requests.
-                if distances_requested.len() == 1 && distances_requested[0] == 0 {
-                    // we requested an ENR update
-                    if nodes.len() > 1 {
-                        warn!(
-                            %node_address,
-                            "Peer returned more than one ENR for itself. Blacklisting",
-                        );
-                        let ban_timeout = self.config.ban_duration.map(|v| Instant::now() + v);
-                        PERMIT_BAN_LIST.write().ban(node_address, ban_timeout);
-                        nodes.retain(|enr| peer_key.log2_distance(&enr.node_id().into()).is_none());
-                    }
-                } else {
+                // A request for distance 0 (an ENR update) is validated like any other: only
+                // the responder's own record is at distance 0.
+                {
                     let before_len = nodes.len();
                     nodes.retain(|enr| {
                         // The responder's own record is at distance 0.
